@@ -111,52 +111,67 @@ theorem Sub.del {f fs : FS} (h : Sub f fs) (n : Name) : Sub (f.del n) fs := by
   · simp [hx] at hg
   · simp only [hx, ↓reduceIte] at hg; exact h n' e' hg
 
-/-- a predicate on (directory, next id) that content-preserving changes keep -/
-def SubClosed (R : FS → Nat → Prop) : Prop := ∀ fs fs' b, R fs b → Sub fs' fs → R fs' b
+/-- the sink's own fields (everything in `W` except the directory, the fault vector and the ghosts) -/
+structure Core where
+  cur : Option Name
+  closed : Bool
+  detached : Bool
+  mismatch : Bool
+  nextId : Nat
+
+def W.core (w : W) : Core := ⟨w.cur, w.closed, w.detached, w.mismatch, w.nextId⟩
+
+/-- a predicate on (directory, sink fields) that content-preserving changes of the directory keep -/
+def SubClosed (R : FS → Core → Prop) : Prop := ∀ fs fs' c, R fs c → Sub fs' fs → R fs' c
+
+/-- … and that only looks at the next message id among the sink fields -/
+def OnlyNextId (R : FS → Core → Prop) : Prop := ∀ fs c c', R fs c → c'.nextId = c.nextId → R fs c'
 
 section subclosed
-variable {R : FS → Nat → Prop} (hR : SubClosed R)
+variable {R : FS → Core → Prop} (hR : SubClosed R)
 include hR
 
-theorem sc_insens : Insens (fun w => R w.fs w.nextId) := fun _ _ _ h => h
+theorem sc_insens : Insens (fun w => R w.fs w.core) := fun _ _ _ h => h
 
-theorem sc_create (cfg : Cfg) (n : Name) :
-    Triple (fun w => R w.fs w.nextId) (createFile cfg n) (fun _ w => R w.fs w.nextId) (fun w => R w.fs w.nextId) := by
+theorem sc_create (hN : OnlyNextId R) (cfg : Cfg) (n : Name) :
+    Triple (fun w => R w.fs w.core) (createFile cfg n) (fun _ w => R w.fs w.core) (fun w => R w.fs w.core) := by
   unfold createFile
   refine Triple.seq (tick_spec (sc_insens hR) _) (Triple.seq (modW_spec _ ?_)
-    (Triple.ite (fun _ => Triple.seq (tick_spec (sc_insens hR) _) (modW_spec _ (fun w h => h))) (fun _ => Triple.unit)))
+    (Triple.ite (fun _ => Triple.seq (tick_spec (sc_insens hR) _) (modW_spec _ (fun w h => hN _ _ _ h rfl))) (fun _ => Triple.unit)))
   intro w hw
-  refine hR _ _ _ hw ?_
+  refine hN _ _ _ (hR _ _ _ hw ?_) rfl
   simp only [fileMode_append, ↓reduceIte]
   cases hg : w.fs.get n with
   | some e => exact Sub.refl _
   | none => exact (Sub.refl _).set n _ (Or.inl rfl)
 
-theorem sc_closeStep (s : CloseStep) :
-    Triple (fun w => R w.fs w.nextId) (closeStep s) (fun _ w => R w.fs w.nextId) (fun w => R w.fs w.nextId) := by
+theorem sc_closeStep (hN : OnlyNextId R) (s : CloseStep) :
+    Triple (fun w => R w.fs w.core) (closeStep s) (fun _ w => R w.fs w.core) (fun w => R w.fs w.core) := by
   cases s with
   | flush =>
     unfold closeStep
     refine Triple.bindGet (fun a => Triple.pre ?_ (fun w h => h.2))
     exact Triple.seq (tick_spec (sc_insens hR) _) (Triple.ite (fun _ => Triple.throw _) (fun _ => Triple.unit))
+  | bindFile => exact Triple.unit
   | close =>
     unfold closeStep
-    exact Triple.seq (modW_spec _ (fun w hw => hw)) (Triple.seq (tick_spec (sc_insens hR) _) (modW_spec _ (fun w hw => hw)))
-  | resetFile => exact modW_spec _ (fun w hw => hw)
+    refine Triple.bindGet (fun a => Triple.pre ?_ (fun w h => h.2))
+    exact Triple.seq (modW_spec _ (fun w hw => hN _ _ _ hw rfl)) (Triple.seq (tick_spec (sc_insens hR) _) (modW_spec _ (fun w hw => hN _ _ _ hw rfl)))
+  | resetFile => exact modW_spec _ (fun w hw => hN _ _ _ hw rfl)
   | resetPath => exact Triple.unit
-  | resetDev => exact modW_spec _ (fun w hw => hw)
+  | resetDev => exact modW_spec _ (fun w hw => hN _ _ _ hw rfl)
   | resetIno => exact Triple.unit
 
-theorem sc_close :
-    Triple (fun w => R w.fs w.nextId) closeFile (fun _ w => R w.fs w.nextId) (fun w => R w.fs w.nextId) := by
+theorem sc_close (hN : OnlyNextId R) :
+    Triple (fun w => R w.fs w.core) closeFile (fun _ w => R w.fs w.core) (fun w => R w.fs w.core) := by
   unfold closeFile
   apply Triple.seqM
   intro a ha
   obtain ⟨s, _, rfl⟩ := List.mem_map.1 ha
-  exact sc_closeStep hR s
+  exact sc_closeStep hR hN s
 
 theorem sc_rename (a b : Name) :
-    Triple (fun w => R w.fs w.nextId) (rename a b) (fun _ w => R w.fs w.nextId) (fun w => R w.fs w.nextId) := by
+    Triple (fun w => R w.fs w.core) (rename a b) (fun _ w => R w.fs w.core) (fun w => R w.fs w.core) := by
   unfold rename
   refine Triple.seq (tick_spec (sc_insens hR) _) (Triple.bindGet (fun w0 => ?_))
   cases hg : w0.fs.get a with
@@ -167,7 +182,7 @@ theorem sc_rename (a b : Name) :
     exact hR _ _ _ hw (((Sub.refl _).del a).set b e (Or.inr ⟨a, e, hg, rfl⟩))
 
 theorem sc_renameSame (o : Orc) (new : Name) (old : Option Name) :
-    Triple (fun w => R w.fs w.nextId) (renameSame o new old) (fun _ w => R w.fs w.nextId) (fun w => R w.fs w.nextId) := by
+    Triple (fun w => R w.fs w.core) (renameSame o new old) (fun _ w => R w.fs w.core) (fun w => R w.fs w.core) := by
   unfold renameSame
   refine Triple.ite (fun _ => ?_) (fun _ => Triple.post (Triple.ret _) (fun _ _ h => h.2))
   refine Triple.seq (getCtime_spec (sc_insens hR) _) (Triple.bindGet (fun w1 => ?_))
@@ -177,7 +192,7 @@ theorem sc_renameSame (o : Orc) (new : Name) (old : Option Name) :
     refine Triple.pre (Triple.seq (sc_rename hR new r) (Triple.post (Triple.ret _) (fun _ _ h => h.2))) (fun w h => h.2)
 
 theorem sc_compressFn (k : CompKind) (p out : Name) :
-    Triple (fun w => R w.fs w.nextId) (compressFn k p out) (fun _ w => R w.fs w.nextId) (fun w => R w.fs w.nextId) := by
+    Triple (fun w => R w.fs w.core) (compressFn k p out) (fun _ w => R w.fs w.core) (fun w => R w.fs w.core) := by
   unfold compressFn
   refine Triple.seq (openSrc_spec (sc_insens hR) k p) ?_
   refine Triple.seq (tick_spec (sc_insens hR) _) ?_
@@ -191,7 +206,7 @@ theorem sc_compressFn (k : CompKind) (p out : Name) :
     exact hR _ _ _ hw ((Sub.refl _).set out _ (Or.inr ⟨p, e, hg, rfl⟩))
 
 theorem sc_remove (n : Name) :
-    Triple (fun w => R w.fs w.nextId) (remove n) (fun _ w => R w.fs w.nextId) (fun w => R w.fs w.nextId) := by
+    Triple (fun w => R w.fs w.core) (remove n) (fun _ w => R w.fs w.core) (fun w => R w.fs w.core) := by
   unfold remove
   refine Triple.seq (tick_spec (sc_insens hR) _) (Triple.bindGet (fun w0 => ?_))
   refine Triple.ite (fun _ => Triple.throw' _ (fun w h => h.2)) (fun _ => modW_spec _ ?_)
@@ -199,7 +214,7 @@ theorem sc_remove (n : Name) :
   exact hR _ _ _ hw ((Sub.refl _).del n)
 
 theorem sc_compression (k : CompKind) (p : Name) (ct : Nat) :
-    Triple (fun w => R w.fs w.nextId) (compression k p ct) (fun _ w => R w.fs w.nextId) (fun w => R w.fs w.nextId) := by
+    Triple (fun w => R w.fs w.core) (compression k p ct) (fun _ w => R w.fs w.core) (fun w => R w.fs w.core) := by
   unfold compression
   apply Triple.seqM
   intro a ha
@@ -218,7 +233,7 @@ theorem sc_compression (k : CompKind) (p : Name) (ct : Nat) :
   | removeSource => exact sc_remove hR p
 
 theorem sc_retStep (s : RetStep) :
-    Triple (fun w => R w.fs w.nextId) (retStep s) (fun _ w => R w.fs w.nextId) (fun w => R w.fs w.nextId) := by
+    Triple (fun w => R w.fs w.core) (retStep s) (fun _ w => R w.fs w.core) (fun w => R w.fs w.core) := by
   cases s with
   | stat => exact tick_spec (sc_insens hR) _
   | del n =>
@@ -231,8 +246,8 @@ theorem sc_retStep (s : RetStep) :
       rintro w ⟨rfl, hw⟩
       exact hR _ _ _ hw ((Sub.refl _).del n)
 
-theorem sc_leafs : Leafs (fun w => R w.fs w.nextId) :=
-  { insens := sc_insens hR, create := sc_create hR, close := sc_close hR, renameSame := sc_renameSame hR,
+theorem sc_leafs (hN : OnlyNextId R) : Leafs (fun w => R w.fs w.core) :=
+  { insens := sc_insens hR, create := sc_create hR hN, close := sc_close hR hN, renameSame := sc_renameSame hR,
     compression := sc_compression hR, retStep := sc_retStep hR }
 
 end subclosed
@@ -243,8 +258,8 @@ end subclosed
 def OrdF (fs : FS) (b : Nat) : Prop :=
   ∀ n e, fs.get n = some e → e.content.Pairwise (· < ·) ∧ ∀ x ∈ e.content, x < b
 
-theorem OrdF.subClosed : SubClosed OrdF := by
-  intro fs fs' b h hs n e' hg
+theorem OrdF.sub {fs fs' : FS} {b : Nat} (h : OrdF fs b) (hs : Sub fs' fs) : OrdF fs' b := by
+  intro n e' hg
   rcases hs n e' hg with h0 | ⟨n0, e0, h0, hc⟩
   · rw [h0]; exact ⟨List.Pairwise.nil, by intro x hx; cases hx⟩
   · rw [hc]; exact h n0 e0 h0
@@ -299,15 +314,17 @@ theorem envTouch_nextId (n : Name) (w : W) : (envTouch n w).nextId = w.nextId :=
 
 theorem step_ord (cfg : Cfg) (op : Op) (w : W) (hw : OrdF w.fs w.nextId) :
     OrdF (step cfg op w).2.fs (step cfg op w).2.nextId := by
-  have L := sc_leafs OrdF.subClosed
+  have L : Leafs (fun x => OrdF x.fs x.nextId) :=
+    sc_leafs (R := fun fs c => OrdF fs c.nextId) (fun _ _ _ h hs => h.sub hs) (fun fs c c' h e => by show OrdF fs c'.nextId; rw [e]; exact h)
   cases op with
   | init o => exact Triple.snd (lazyCreate_gen L cfg o) w hw
   | stop o => exact Triple.snd (stopBody_gen L cfg o) w hw
   | restart => exact hw
   | write o =>
     have L' : Leafs (fun x => OrdF x.fs x.nextId ∧ x.nextId = w.nextId) :=
-      sc_leafs (R := fun fs b => OrdF fs b ∧ b = w.nextId)
-        (fun fs fs' b h hs => ⟨OrdF.subClosed fs fs' b h.1 hs, h.2⟩)
+      sc_leafs (R := fun fs c => OrdF fs c.nextId ∧ c.nextId = w.nextId)
+        (fun _ _ _ h hs => ⟨h.1.sub hs, h.2⟩)
+        (fun fs c c' h e => by show OrdF fs c'.nextId ∧ c'.nextId = w.nextId; rw [e]; exact h)
     have := writeBody_gen L' cfg o (fun x h => ⟨(h.2 ▸ h.1).mono (Nat.le_succ _), h.2⟩) (writeMsg_ord w.nextId) w ⟨hw, rfl⟩
     simp only [step]
     match hm : writeBody cfg o w with
@@ -317,13 +334,13 @@ theorem step_ord (cfg : Cfg) (op : Op) (w : W) (hw : OrdF w.fs w.nextId) :
     cases hg : w.fs.get n with
     | none => simp only [step, hg]; exact hw
     | some e =>
-      have : OrdF (w.fs.del n) w.nextId := OrdF.subClosed _ _ _ hw ((Sub.refl _).del n)
+      have : OrdF (w.fs.del n) w.nextId := hw.sub ((Sub.refl _).del n)
       simp only [step, hg, envTouch_fs, envTouch_nextId]; exact this
   | extReplace n =>
     cases hg : w.fs.get n with
     | none => simp only [step, hg]; exact hw
     | some e =>
-      have : OrdF (w.fs.set n (.file [])) w.nextId := OrdF.subClosed _ _ _ hw ((Sub.refl _).set n _ (Or.inl rfl))
+      have : OrdF (w.fs.set n (.file [])) w.nextId := hw.sub ((Sub.refl _).set n _ (Or.inl rfl))
       simp only [step, hg, envTouch_fs, envTouch_nextId]; exact this
 
 theorem run_ord (cfg : Cfg) (ops : List Op) (w : W) (hw : OrdF w.fs w.nextId) :
